@@ -137,7 +137,7 @@ CHECKS["C07"] = dict(
 CHECKS["C08"] = dict(
     level="exploration",
     technique="runtime monitoring: virtual-time trace monitor of Advertiser shutdown with the stop request placed inside in-flight operations through seam hooks; final-RA-last / none-on-reload / silent-after-return oracles; race detector pass",
-    rule="stop instants in five classes — idle, response pending in its delay, transmission in flight (stop request issued from inside the worker's State read or socket write, 1–5 ms latencies), periodic transmission in flight at the 16 s tick, "
+    rule="stop instants in six classes — inside the 3 s minimum-spacing wait of a multicast RA held back behind a late (stalled) transmission, idle, response pending in its delay, transmission in flight (stop request issued from inside the worker's State read or socket write, 1–5 ms latencies), periodic transmission in flight at the 16 s tick, "
          "solicitation in the same instant as the request — × terminate/reload × unicast_only (1/8); the class is confirmed from the trace; non-trivial = trace class other than idle; distinct = scenario id (seeded)",
     assumptions=VT + ["configurations with default_lifetime 0 or forwarding off are excluded from the final-RA clauses (every RA has lifetime 0 there)"],
     parts=vparts("TestVerifC08"),
@@ -235,7 +235,8 @@ CHECKS["C20"] = dict(
                  "the terminate flag is read through Server.t.terminate (the function BuildTasks hands to advertisers)"],
     parts=[dict(name="build", pkg="internal/corerad", test="TestVerifC20", shards=S4, env={"VERIF_PART": "build"}),
            dict(name="serve", pkg="internal/corerad", test="TestVerifC20", shards=S16, env={"VERIF_PART": "serve"}),
-           dict(name="race", pkg="internal/corerad", test="TestVerifC20", race=True, shards=S4, env={"VERIF_PART": "race"})],
+           dict(name="race", pkg="internal/corerad", test="TestVerifC20", race=True, shards=S4, env={"VERIF_PART": "race"}),
+           dict(name="http", pkg="internal/corerad", test="TestVerifC20HTTP", race=True, shards={"quick": 5, "thorough": 10}, timeout_s={"quick": 300, "thorough": 1200})],
 )
 
 CHECKS["C17"] = dict(
